@@ -115,3 +115,17 @@ Proof.
     repeat match goal with |- context [Nat.ltb ?x ?y] => destruct (Nat.ltb x y) eqn:? end;
     to_prop; simpl; try reflexivity; lia.
 Qed.
+
+(* the grouping loop of _pull *)
+Lemma existsb_dom_agree kept c2 :
+  existsb (fun c => dominates_src c c2) kept = existsb (fun c => dominates c c2) kept.
+Proof. induction kept as [|a r IH]; simpl; [reflexivity|]. now rewrite dominates_agree, IH. Qed.
+
+Lemma grp_agree : forall rest kept, grp_src kept rest = grp kept rest.
+Proof.
+  first
+    [ intros; reflexivity
+    | induction rest as [|c2 r IH]; intros kept; simpl; [reflexivity|];
+      rewrite ?negb_involutive, ?existsb_dom_agree;
+      destruct (existsb (fun c => dominates c c2) kept); cbn [negb]; rewrite ?IH; reflexivity ].
+Qed.
